@@ -9,6 +9,7 @@ package tor
 // end of every connection and speaks through the independent reference codec.
 
 import (
+	"runtime"
 	"bytes"
 	"context"
 	"crypto/sha1"
@@ -1322,7 +1323,9 @@ func (w *World) apply(tr string) bool {
 			return false
 		}
 		ctx, cancel := context.WithCancel(w.ctx)
-		w.readers = append(w.readers, &wreader{r: w.t.NewReader(ctx, int64(arg(1)), int64(arg(2))), ctx: ctx, cancel: cancel, off: int64(arg(1)), ln: int64(arg(2))})
+		nr := w.t.NewReader(ctx, int64(arg(1)), int64(arg(2)))
+		runtime.SetFinalizer(nr, nil) // a finalizer would touch bubble channels from outside the bubble
+		w.readers = append(w.readers, &wreader{r: nr, ctx: ctx, cancel: cancel, off: int64(arg(1)), ln: int64(arg(2))})
 	case "rread": // rread:<reader>:<buffer size>
 		if arg(1) >= len(w.readers) {
 			return false
